@@ -8,7 +8,7 @@ from sa.consteval import eval_init
 from sa.loader import AnalysisError
 from sa.tables import Cfg, columns_of_slice
 from checks import common, groups as G
-from checks.recordloop import RecordLoop
+from checks.recordloop import RecordLoop, check_terminus_latch
 
 MODEL_PKAS = {'ASP': 3.80, 'GLU': 4.50, 'HIS': 6.50, 'CYS': 9.00, 'TYR': 10.00,
               'LYS': 10.50, 'ARG': 12.50, 'N+': 8.00, 'C-': 3.20}
@@ -287,112 +287,7 @@ def run(ctx):
     common.check_bridge_not_titrated(ctx, 'C01.R5', prog)
 
     # ------------------------------------------------------------------ R6
-    nplus = [s for s in walk_no_nested(rl.loop) if isinstance(s, ast.Assign)
-             and norm(s.targets[0]) == rl.terminal_var and isinstance(s.value, ast.Constant)
-             and s.value.value == 'N+']
-    if len(nplus) != 1 or len(term_c) != 1:
-        raise AnalysisError('C01.R6: terminus tagging statements not found')
-    latch, key_var = None, None
-    for t, p, _k in guards_of(nplus[0], rl.loop):
-        for sub in ast.walk(t):
-            if isinstance(sub, ast.Compare) and isinstance(sub.ops[0], ast.Eq) and p:
-                names = [norm(sub.left), norm(sub.comparators[0])]
-                st = [n for n in names if n in rl.state_vars]
-                al = [n for n in names if n in rl.aliases]
-                if len(st) == 1 and len(al) == 1:
-                    latch, key_var = st[0], al[0]
-    if latch is None:
-        raise AnalysisError('C01.R6: latch comparison guarding terminal = "N+" not found')
-    sentinel = None
-    for stmt in rl.fn.body:
-        if stmt is rl.loop:
-            break
-        if isinstance(stmt, ast.Assign) and norm(stmt.targets[0]) == latch:
-            sentinel = norm(stmt.value)
-    ctx.note('latch', {'variable': latch, 'key': key_var, 'sentinel': sentinel})
-    rearm = [s for s in walk_no_nested(rl.loop) if isinstance(s, ast.Assign)
-             and norm(s.targets[0]) == latch and norm(s.value) == sentinel]
-
-    def rearmed_under(pred):
-        for s in rearm:
-            for t, p, _k in guards_of(s, rl.loop):
-                if p and pred(t):
-                    return s
-        return None
-    def tag_is(value):
-        def pred(t):
-            if isinstance(t, ast.Compare) and isinstance(t.ops[0], ast.Eq):
-                sides = [t.left, t.comparators[0]]
-                lits = [x.value for x in sides if isinstance(x, ast.Constant)]
-                recs = [x for x in sides if rl.slice_of(x) == (0, 6)]
-                return lits == [value] and len(recs) == 1
-            return False
-        return pred
-    s_model = rearmed_under(tag_is('MODEL '))
-    s_ter = rearmed_under(tag_is('TER   '))
-    ctx.ob('C01.R6', 'latch:re-armed-on-MODEL', s_model is not None,
-           'a MODEL record re-arms the N-terminus latch (the first residue of a model is a chain '
-           'start)', rl.mod, s_model or rl.loop)
-    ctx.ob('C01.R6', 'latch:re-armed-on-TER', s_ter is not None,
-           'a TER record re-arms the N-terminus latch', rl.mod, s_ter or rl.loop)
-    s_oxt = next((s for s in rearm if s._parent is term_c[0]._parent), None)
-    ctx.ob('C01.R6', 'latch:re-armed-on-terminal-oxygen', s_oxt is not None,
-           'a residue carrying a terminal oxygen re-arms the latch (next residue starts a chain)',
-           rl.mod, s_oxt or term_c[0])
-    # MODEL/TER tests must not be conditional on anything else
-    for name, s in (('MODEL', s_model), ('TER', s_ter)):
-        if s is not None:
-            gs = [g for g in guards_of(s, rl.loop)]
-            ctx.ob('C01.R6', 'latch:%s-unconditional' % name, len(gs) == 1,
-                   'the %s re-arm depends on the record tag only' % name, rl.mod, s)
-    sl = rl.slice_of(ast.Name(id=key_var, ctx=ast.Load()))
-    cols = columns_of_slice(sl[0], sl[1]) if sl else []
-    need = {'chain', 'resseq', 'icode'}
-    ctx.ob('C01.R6', 'latch:residue-key-columns', sl is not None and need <= set(cols)
-           and set(cols) <= need,
-           'the residue key compared with the latch covers chain, residue number and insertion '
-           'code (columns 22-27); it covers %s. A key of the number alone mistakes the first '
-           'residue of a chain for a continuation when it repeats the number of the previous '
-           'chain\'s last residue' % cols, rl.mod,
-           rl.aliases[key_var][0][1] if key_var in rl.aliases else rl.loop)
-    # arming: latch := key only for ATOM records when armed and the residue changed
-    arms = [s for s in walk_no_nested(rl.loop) if isinstance(s, ast.Assign)
-            and norm(s.targets[0]) == latch and norm(s.value) == key_var]
-    ok = False
-    if len(arms) == 1:
-        facts = fact_texts(arms[0], rl.loop)
-        pos = [t for t, p in facts if p]
-        ok = any(t == '%s == %s' % (latch, sentinel) for t in pos) and \
-            any("== 'ATOM  '" in t for t in pos) and \
-            any('!= ' + key_var in t for t in pos)
-    ctx.ob('C01.R6', 'latch:arming', ok,
-           'the latch takes the key of the next ATOM residue when armed and the residue differs '
-           'from the one that carried the terminal oxygen', rl.mod, arms[0] if arms else rl.loop)
-    # N+ only for atom name N of ATOM records; C- for terminal oxygen names
-    facts = [t for t, p in fact_texts(nplus[0], rl.loop) if p]
-    name_ok = False
-    for t, p, _k in guards_of(nplus[0], rl.loop):
-        for sub in ast.walk(t):
-            if isinstance(sub, ast.Compare) and isinstance(sub.comparators[0], ast.Constant) \
-                    and sub.comparators[0].value == 'N' and rl.slice_of(sub.left) == (12, 16):
-                name_ok = True
-    ctx.ob('C01.R6', 'N+:atom-name-N-of-ATOM-record',
-           name_ok and any("== 'ATOM  '" in t for t in facts),
-           'the N+ tag goes to the atom named N (name columns 13-16) of an ATOM record', rl.mod,
-           nplus[0])
-    # the tag is attached to the atom and cleared after every record
-    blk = rl.atom_block.body
-    attach = [s for s in blk if isinstance(s, ast.Assign) and norm(s.targets[0]).endswith('.terminal')
-              and norm(s.value) == rl.terminal_var]
-    clear = [s for s in blk if isinstance(s, ast.Assign) and norm(s.targets[0]) == rl.terminal_var
-             and norm(s.value) == 'None']
-    ys = [s for s in blk if any(isinstance(y, ast.Yield) for y in ast.walk(s))]
-    ok = len(attach) == 1 and len(clear) == 1 and len(ys) == 1 and \
-        blk.index(attach[0]) < blk.index(ys[0]) < blk.index(clear[0])
-    ctx.ob('C01.R6', 'terminal:attached-then-cleared', ok,
-           'the tag is stored on the atom before it is yielded and reset afterwards, for every '
-           'record', rl.mod, attach[0] if attach else rl.atom_block)
-    ctx.need('C01.R6', 8)
+    check_terminus_latch(ctx, 'C01.R6', rl)
 
     # ------------------------------------------------------------------ R7
     setup = gmod.func('Group.setup')
